@@ -139,8 +139,33 @@ def written_back(vec):
     return problems
 
 
+def through_a_cid(vec):
+    """
+    What users call: a CID that declares the widths, read with cutplace.rows (nothing validated, so that the rows come back
+    as they are cut). Every behaviour builds a CID of its own, as a process does that validates files of several layouts one
+    after the other: the layout used is the one of the CID at hand.
+    """
+    import cutplace
+    from cutplace import errors
+    expected = vec["parse"]
+    cid = cutplace.Cid()
+    cid.read("cid", [["D", "Format", "fixed"], ["D", "Line delimiter", vec["delim"]], ["D", "Encoding", "utf-8"]] + [
+        ["F", "f%d" % number, "", "", str(width), "Text"] for number, width in enumerate(vec["widths"], 1)])
+    what = "cutplace.rows(CID with widths %s and line delimiter %s, %r)" % (vec["widths"], vec["delim"], text_of(vec["input"]))
+    try:
+        rows = list(cutplace.rows(cid, io.StringIO(text_of(vec["input"]), newline=""), validate_until=0))
+    except errors.DataFormatError:
+        return [] if expected[0] == "err" else ["%s: well-formed input refused" % what]
+    except Exception as error:  # noqa
+        return ["%s: neither rows nor a data-format error: %s: %s" % (what, type(error).__name__, error)]
+    if expected[0] == "err":
+        return ["%s: malformed input was silently read as %s" % (what, rows)]
+    want = [[text_of(item) for item in row] for row in expected[1]]
+    return [] if rows == want else ["%s: returns %s but the input holds %s" % (what, rows, want)]
+
+
 def _job(vec):
-    return problems_of(vec, observe(vec)) + written_back(vec)
+    return problems_of(vec, observe(vec)) + written_back(vec) + through_a_cid(vec)
 
 
 def replay(behaviour, report=None):
